@@ -435,6 +435,25 @@ def refusals(ctx):
         v = fld(nv)
         ctx.expect_raises("C05.refused.curl_dimension", lambda: v.curl, unchanged=[v],
                           what={"nvdim": nv, "ndim": nd})
+    # fewer components than axes, every component mapped onto an axis of its own: the
+    # component dimension still does not fit the operator
+    if nd >= 2:
+        nv = int(rng.integers(1, nd))
+        lab = label_list(rand_labels(rng, nv), nv)
+        axes = [int(x) for x in rng.permutation(nd)[:nv]]
+        mp = {lab[j]: names[axes[j]] for j in range(nv)}
+        v = fld(nv, vdims=lab, vdim_mapping=mp)
+        ctx.expect_raises("C05.refused.div_dimension", lambda: v.div, unchanged=[v],
+                          what={"nvdim": nv, "ndim": nd, "mapping": mp,
+                                "all_components_mapped": True})
+    if nd == 4:
+        lab = label_list(rand_labels(rng, 3), 3)
+        axes = [int(x) for x in rng.permutation(4)[:3]]
+        mp = {lab[j]: names[axes[j]] for j in range(3)}
+        v = fld(3, vdims=lab, vdim_mapping=mp)
+        ctx.expect_raises("C05.refused.curl_dimension", lambda: v.curl, unchanged=[v],
+                          what={"nvdim": 3, "ndim": 4, "mapping": mp,
+                                "all_components_mapped": True})
     # nvdim == ndim but components not mapped onto the mesh axes
     labels = label_list(rand_labels(rng, nd), nd)
     good = {labels[j]: names[j] for j in range(nd)}
